@@ -15,6 +15,10 @@
 (*                      more than a slice (10 ms + 1 ms) after the node was made *)
 (*                      did not signal the coroutine's thread although the       *)
 (*                      coroutine kept running until the following scan          *)
+(*   never_signalled    any Running period of a busy coroutine (also after it was *)
+(*                      stolen by another thread): the monitor completed three   *)
+(*                      or more scans later than 25 ms into the period and sent  *)
+(*                      no signal to the thread the coroutine runs on            *)
 (*   signal_ignored     Monitor!Deliver: the monitor signalled the thread on     *)
 (*                      which the busy coroutine was computing in the Running    *)
 (*                      state - the coroutine's state did not change between the *)
@@ -48,15 +52,17 @@ VARIABLES l, scen, busyKind, nthreads, nviol,
           suspended,  \* busy coroutines suspended at least once during their computation
           first,      \* [own -> [t, on]] first Running period of a busy coroutine in progress (running kind)
           runOn,      \* [own -> on] busy coroutines currently in the Running state, and where
+          period,     \* [own -> [t, late, nsig]] the Running period in progress: its start, the scans completed later
+                      \* than 25 ms into it, the signals sent to its thread
           armed,      \* busy coroutines computing in the Running state on a thread the monitor is about to signal
           owed,       \* busy coroutines whose thread was signalled while they computed in the Running state
           s1, s2,     \* record times of the last two scans (0 = none)
           sigs,       \* threads signalled since the last scan
           nscan, t0, longBusy, sysPend
-vars == <<l, scen, busyKind, nthreads, nviol, inBusy, quickSeen, suspended, first, runOn, armed, owed, s1, s2, sigs, nscan, t0, longBusy, sysPend>>
+vars == <<l, scen, busyKind, nthreads, nviol, inBusy, quickSeen, suspended, first, runOn, period, armed, owed, s1, s2, sigs, nscan, t0, longBusy, sysPend>>
 
 Init == /\ l = 1 /\ scen = 0 /\ busyKind = "" /\ nthreads = 0 /\ nviol = 0
-        /\ inBusy = {} /\ quickSeen = {} /\ suspended = {} /\ first = <<>> /\ runOn = <<>> /\ armed = {} /\ owed = {}
+        /\ inBusy = {} /\ quickSeen = {} /\ suspended = {} /\ first = <<>> /\ runOn = <<>> /\ period = <<>> /\ armed = {} /\ owed = {}
         /\ s1 = 0 /\ s2 = 0 /\ sigs = {} /\ nscan = 0 /\ t0 = 0 /\ longBusy = FALSE /\ sysPend = {}
 Viol(clause, detail) == PrintT(<<"VIOL", l, clause, scen, detail>>)
 Count(b) == IF b THEN 1 ELSE 0
@@ -69,16 +75,16 @@ Step ==
   /\ LET r == Rec[l] ev == r.ev IN
      CASE ev = "mreset" ->
             /\ scen' = r.scenario /\ busyKind' = r.busy /\ nthreads' = r.threads
-            /\ inBusy' = {} /\ quickSeen' = {} /\ suspended' = {} /\ first' = <<>> /\ runOn' = <<>> /\ armed' = {} /\ owed' = {}
+            /\ inBusy' = {} /\ quickSeen' = {} /\ suspended' = {} /\ first' = <<>> /\ runOn' = <<>> /\ period' = <<>> /\ armed' = {} /\ owed' = {}
             /\ s1' = 0 /\ s2' = 0 /\ sigs' = {} /\ nscan' = 0 /\ t0' = r.t /\ longBusy' = FALSE /\ sysPend' = {}
             /\ UNCHANGED nviol
        [] ev = "busy_b" ->
             /\ inBusy' = inBusy \cup {r.own}
             /\ first' = IF busyKind = "running" THEN Put(first, r.own, [t |-> r.t, on |-> r.on]) ELSE first
-            /\ UNCHANGED <<scen, busyKind, nthreads, nviol, quickSeen, suspended, runOn, armed, owed, s1, s2, sigs, nscan, t0, longBusy, sysPend>>
+            /\ UNCHANGED <<scen, busyKind, nthreads, nviol, quickSeen, suspended, runOn, period, armed, owed, s1, s2, sigs, nscan, t0, longBusy, sysPend>>
        [] ev = "quick" ->
             /\ quickSeen' = quickSeen \cup {r.own}
-            /\ UNCHANGED <<scen, busyKind, nthreads, nviol, inBusy, suspended, first, runOn, armed, owed, s1, s2, sigs, nscan, t0, longBusy, sysPend>>
+            /\ UNCHANGED <<scen, busyKind, nthreads, nviol, inBusy, suspended, first, runOn, period, armed, owed, s1, s2, sigs, nscan, t0, longBusy, sysPend>>
        [] ev = "busy_e" ->
             LET b1 == nthreads = 1 /\ r.own \in suspended /\ r.own \notin quickSeen
                 b2 == ~r.ok
@@ -87,22 +93,25 @@ Step ==
                /\ nviol' = nviol + Count(b1) + Count(b2) /\ inBusy' = inBusy \ {r.own}
                /\ longBusy' = (longBusy \/ (busyKind = "running" /\ r.ms >= 30 /\ r.own \notin suspended))
                /\ armed' = armed \ {r.own}
-               /\ UNCHANGED <<scen, busyKind, nthreads, quickSeen, suspended, first, runOn, owed, s1, s2, sigs, nscan, t0, sysPend>>
+               /\ UNCHANGED <<scen, busyKind, nthreads, quickSeen, suspended, first, runOn, period, owed, s1, s2, sigs, nscan, t0, sysPend>>
        [] ev = "mon_scan" ->
             \* the scan before this one (record time s2) is now complete: judge it
             LET late == {b \in DOMAIN first : s1 >= first[b].t /\ s2 >= first[b].t + SliceUs /\ first[b].on \notin sigs}
             IN /\ (late # {} => Viol("monitor_skipped", late))
                /\ nviol' = nviol + Count(late # {})
                /\ s1' = s2 /\ s2' = r.t /\ sigs' = {} /\ nscan' = nscan + 1
+               \* the scan before this one is complete: it counts for every period it ended later than 25 ms into
+               /\ period' = [b \in DOMAIN period |-> IF s2 >= period[b].t + 25000 THEN [period[b] EXCEPT !.late = @ + 1] ELSE period[b]]
                /\ UNCHANGED <<scen, busyKind, nthreads, inBusy, quickSeen, suspended, first, runOn, armed, owed, t0, longBusy, sysPend>>
        [] ev = "mon_sig_b" ->
             /\ armed' = armed \cup {b \in DOMAIN runOn : runOn[b] = r.own /\ b \in inBusy /\ busyKind = "running"}
-            /\ UNCHANGED <<scen, busyKind, nthreads, nviol, inBusy, quickSeen, suspended, first, runOn, owed, s1, s2, sigs, nscan, t0, longBusy, sysPend>>
+            /\ UNCHANGED <<scen, busyKind, nthreads, nviol, inBusy, quickSeen, suspended, first, runOn, period, owed, s1, s2, sigs, nscan, t0, longBusy, sysPend>>
        [] ev = "mon_sig" ->
             \* the kill lies between the mon_sig_b record and this one
             LET hit == {b \in armed : Has(runOn, b) /\ runOn[b] = r.own} IN
             /\ sigs' = sigs \cup {r.own}
             /\ owed' = owed \cup hit /\ armed' = armed \ hit
+            /\ period' = [b \in DOMAIN period |-> IF Has(runOn, b) /\ runOn[b] = r.own THEN [period[b] EXCEPT !.nsig = @ + 1] ELSE period[b]]
             /\ UNCHANGED <<scen, busyKind, nthreads, nviol, inBusy, quickSeen, suspended, first, runOn, s1, s2, nscan, t0, longBusy, sysPend>>
        [] ev = "chg" ->
             LET busy == r.co = 1
@@ -110,10 +119,13 @@ Step ==
                 bad == busyKind = "syscall" /\ busy /\ b \in inBusy /\ r.new = "Suspend"
                 err == r.new = "Error"
                 ign == busy /\ r.new \in {"Complete", "Error"} /\ b \in owed
+                nev == busy /\ busyKind = "running" /\ Has(period, b) /\ period[b].late >= 3 /\ period[b].nsig = 0
             IN /\ (bad => Viol("syscall_preempted", b))
+               /\ (nev => Viol("never_signalled", <<b, period[b]>>))
                /\ (err => Viol("co_error", <<b, r.co, r.msg>>))
                /\ (ign => Viol("signal_ignored", b))
-               /\ nviol' = nviol + Count(bad) + Count(err) + Count(ign)
+               /\ nviol' = nviol + Count(bad) + Count(err) + Count(ign) + Count(nev)
+               /\ period' = IF ~busy THEN period ELSE IF r.new = "Running" THEN Put(period, b, [t |-> r.t, late |-> 0, nsig |-> 0]) ELSE Drop(period, b)
                /\ suspended' = IF busy /\ b \in inBusy /\ r.new = "Suspend" THEN suspended \cup {b} ELSE suspended
                /\ runOn' = IF ~busy THEN runOn ELSE IF r.new = "Running" THEN Put(runOn, b, r.on) ELSE Drop(runOn, b)
                /\ first' = IF busy /\ Has(first, b) THEN Drop(first, b) ELSE first
@@ -122,25 +134,25 @@ Step ==
                /\ UNCHANGED <<scen, busyKind, nthreads, inBusy, quickSeen, s1, s2, sigs, nscan, t0, longBusy, sysPend>>
        [] ev = "sys_sig_b" ->
             /\ sysPend' = sysPend \cup {r.own}
-            /\ UNCHANGED <<scen, busyKind, nthreads, nviol, inBusy, quickSeen, suspended, first, runOn, armed, owed, s1, s2, sigs, nscan, t0, longBusy>>
+            /\ UNCHANGED <<scen, busyKind, nthreads, nviol, inBusy, quickSeen, suspended, first, runOn, period, armed, owed, s1, s2, sigs, nscan, t0, longBusy>>
        [] ev = "sys_sig_e" ->
             /\ sysPend' = sysPend \ {r.own}
-            /\ UNCHANGED <<scen, busyKind, nthreads, nviol, inBusy, quickSeen, suspended, first, runOn, armed, owed, s1, s2, sigs, nscan, t0, longBusy>>
+            /\ UNCHANGED <<scen, busyKind, nthreads, nviol, inBusy, quickSeen, suspended, first, runOn, period, armed, owed, s1, s2, sigs, nscan, t0, longBusy>>
        [] ev = "thread_done" ->
             LET bad == r.all < r.want IN
             /\ (bad => Viol("unfinished", <<r.th, r.all, r.want>>))
             /\ nviol' = nviol + Count(bad)
-            /\ UNCHANGED <<scen, busyKind, nthreads, inBusy, quickSeen, suspended, first, runOn, armed, owed, s1, s2, sigs, nscan, t0, longBusy, sysPend>>
+            /\ UNCHANGED <<scen, busyKind, nthreads, inBusy, quickSeen, suspended, first, runOn, period, armed, owed, s1, s2, sigs, nscan, t0, longBusy, sysPend>>
        [] ev = "died" ->
             /\ Viol(r.how, r.msg) /\ nviol' = nviol + 1
-            /\ UNCHANGED <<scen, busyKind, nthreads, inBusy, quickSeen, suspended, first, runOn, armed, owed, s1, s2, sigs, nscan, t0, longBusy, sysPend>>
+            /\ UNCHANGED <<scen, busyKind, nthreads, inBusy, quickSeen, suspended, first, runOn, period, armed, owed, s1, s2, sigs, nscan, t0, longBusy, sysPend>>
        [] ev = "mend" ->
             LET dead == longBusy /\ nscan = 0 /\ "t" \in DOMAIN r /\ r.t - t0 >= 300000 IN
             /\ (dead => Viol("monitor_dead", r.t - t0))
             /\ (sysPend # {} => Viol("syscall_preempted", sysPend))
             /\ PrintT(<<"STAT", scen, nscan>>)
             /\ nviol' = nviol + Count(dead) + Count(sysPend # {})
-            /\ UNCHANGED <<scen, busyKind, nthreads, inBusy, quickSeen, suspended, first, runOn, armed, owed, s1, s2, sigs, nscan, t0, longBusy, sysPend>>
+            /\ UNCHANGED <<scen, busyKind, nthreads, inBusy, quickSeen, suspended, first, runOn, period, armed, owed, s1, s2, sigs, nscan, t0, longBusy, sysPend>>
 Spec == Init /\ [][Step]_vars
 Accepted == /\ PrintT(<<"ACCEPT", TLCGet("stats").diameter - 1, N>>)
             /\ TLCGet("stats").diameter - 1 = N
